@@ -19,6 +19,7 @@ class FunctionCall:
         self._params_without_self = {k: v for k, v in self.func.signature.parameters.items() if v.name != 'self'}
         self._already_checked_kwargs = []
         self._get_type_vars = lambda: self._type_vars
+        self._resolved_type_vars = None
 
     @property
     def func(self) -> DecoratedFunction:
@@ -38,15 +39,18 @@ class FunctionCall:
 
     @property
     def type_vars(self) -> Dict[TypeVar, Any]:
-        if hasattr(self._instance, TYPE_VAR_METHOD_NAME):
-            self._get_type_vars = getattr(self._instance, TYPE_VAR_METHOD_NAME)
+        if self._resolved_type_vars is None:  # resolved once per call: the bindings live for the whole call
+            if hasattr(self._instance, TYPE_VAR_METHOD_NAME):
+                self._get_type_vars = getattr(self._instance, TYPE_VAR_METHOD_NAME)
 
-        res = self._get_type_vars()
+            res = self._get_type_vars()
 
-        if TYPE_VAR_SELF not in res:
-            res[TYPE_VAR_SELF] = self.clazz
+            if TYPE_VAR_SELF not in res:
+                res[TYPE_VAR_SELF] = self.clazz
 
-        return res
+            self._resolved_type_vars = res
+
+        return self._resolved_type_vars
 
     @property
     def clazz(self) -> Optional[Type]:
